@@ -154,8 +154,65 @@ def run(ctx: vlib.Ctx):
                               "input_src": gen.py_src(v), "observed": obs, "expected": "ok:" + gen.py_src(exp)}, {"kind": "encode-native", "fmt": fmt})
         fam.dispose()
 
+    format_mixin_part(ctx)
+
+
+FORMAT_MIXINS = {"orjson": ("DataClassORJSONMixin", "to_jsonb"), "msgpack": ("DataClassMessagePackMixin", "to_msgpack"),
+                 "toml": ("DataClassTOMLMixin", "to_toml")}
+
+
+def _ident(d, **kw):
+    return d
+
+
+def format_mixin_part(ctx):
+    """the same clause observed where a format MIXIN hands its document to the encoder: x.to_jsonb / to_msgpack / to_toml with
+    the identity as encoder.  Classes (self references through Self included, nested mixin classes of the same format)
+    go through the per-format code path (__mashumaro_to_dict_<fmt>__ and the builders created for nested / Self fields)."""
+    for fmt, (base, meth) in FORMAT_MIXINS.items():
+        for i in range(ctx.budget(25, 250)):
+            o = gen.GenOpts(depth=ctx.rng.choice([1, 2, 3]), mixin=True, mixin_base=base, configs=ctx.rng.random() < 0.3)
+            sg = gen.SchemaGen(ctx.rng, o)
+            sg.tag = f"m{fmt[0]}{i}_"
+            t = sg.dataclass_type(o.depth - 1)
+            fam = sg.fam
+            try:
+                ns = fam.build()
+            except Exception as e:
+                ctx.fail(f"{fmt} mixin class cannot be created: {type(e).__name__}: {str(e)[:200]}",
+                         {"entry": "format_mixin_build", "source": fam.source(), "type": gen.py_ann(t), "expected": "ok"}, {"kind": "mixin-build", "fmt": fmt})
+                fam.dispose()
+                continue
+            vg = gen.ValueGen(ctx.rng, fam)
+            for _ in range(3):
+                v = vg.value(t)
+                ctx.count(("mixin", fmt, t.key(), repr(v)))
+                exp = ref_encode_native(fmt, t, v, fam, ns)
+                try:
+                    got = getattr(v, meth)(encoder=_ident)
+                    ok = gen.same_ordered(got, exp)
+                    obs = "ok:" + gen.py_src(got)
+                except Exception as e:
+                    ok = False
+                    obs = f"exc:{type(e).__name__}"
+                ctx.hist("format_mixin", fmt)
+                if not ok:
+                    ctx.fail(f"{fmt} mixin, {gen.py_ann(t)}.{meth}(encoder=identity): {obs[:200]} expected {gen.py_src(exp)[:200]}",
+                             {"entry": "format_mixin_encode", "dialect": fmt, "source": fam.source(), "type": gen.py_ann(t),
+                              "input_src": gen.py_src(v), "observed": obs, "expected": "ok:" + gen.py_src(exp)}, {"kind": "encode-native-mixin", "fmt": fmt})
+            fam.dispose()
+
 
 def replay(rep: dict) -> int:
+    if rep.get("entry") == "format_mixin_encode":
+        ns = gen.build_module(rep["source"])
+        v = eval(rep["input_src"], dict(ns))
+        try:
+            obs = "ok:" + gen.py_src(getattr(v, FORMAT_MIXINS[rep["dialect"]][1])(encoder=_ident))
+        except Exception as e:
+            obs = f"exc:{type(e).__name__}"
+        print("observed:", obs, "\nexpected:", rep["expected"])
+        return 1 if obs != rep["expected"] else 0
     if rep.get("entry") == "codec_encode_dialect":
         from mashumaro.codecs.basic import BasicEncoder
         from mashumaro.mixins.msgpack import MessagePackDialect
